@@ -127,6 +127,13 @@ static void swap_cb(void *a, void *b, void *t, size_t len)
 
 static int cmp_bytes(const void *a, const void *b) { return memcmp(a, b, es); }
 
+/* where an array starts relative to 16-byte alignment is part of the plan, not of the process's allocation history: the
+ * offset is a multiple of the largest power of two that divides the element size (so 3- and 5-byte elements start at any
+ * byte, 4-byte ones at multiples of 4, ...) */
+static unsigned char *arr_raw, *scratch_raw; static size_t moff_arr, moff_scratch;
+static size_t align_unit(size_t e) { size_t u = 1; while (u < 8 && e % (u * 2) == 0) u *= 2; return u; }
+static unsigned char *alloc_at(size_t bytes, size_t off, unsigned char **raw) { *raw = simheap_alloc(bytes + 16, TAG_EXT); return *raw + off; }
+
 /* "virtual" arrays: search and reverse only hand element addresses to the callbacks, so an array of 2^30 ... 2^40
  * elements needs no memory at all: element i "holds" the value i, the comparison function derives it from the address,
  * and the swap function records which pair it was asked to exchange. Nothing ever dereferences an element. */
@@ -175,7 +182,10 @@ static void z_exec(const plan_t *p)
     reentrant = (int)(p->cfg[CF_RAND] >> 1 & 7) == 0;
     { int q; for (q = 0; q < 32; q++) auxarr[q] = (unsigned char)q; }
     if (reentrant) PROBE("comparator_reenters_library");
-    scratch = simheap_alloc(es, TAG_EXT);
+    moff_arr = (size_t)(p->cfg[CF_RAND] >> 4 & 15) / align_unit(es) * align_unit(es) % 16;
+    moff_scratch = (size_t)(p->cfg[CF_RAND] >> 8 & 15) / align_unit(es) * align_unit(es) % 16;
+    if (moff_arr % 8) PROBE("array_not_8_byte_aligned");
+    scratch = alloc_at(es, moff_scratch, &scratch_raw); arr_raw = NULL;
     ref = NULL;
     g_cur_prop = "C11";
 
@@ -195,8 +205,8 @@ static void z_exec(const plan_t *p)
             n = (size_t)(o->a[1] % (maxn + 1));
             alpha = 1 + (size_t)(o->a[2] % (kb == 2 ? 3000 : 200));
             if (o->a[2] % 5 == 0) alpha = 1 + (size_t)(o->a[2] % 3);
-            if (arr) simheap_free(arr);
-            arr = simheap_alloc(n * es ? n * es : 1, TAG_EXT);
+            if (arr) simheap_free(arr_raw);
+            arr = alloc_at(n * es ? n * es : 1, moff_arr, &arr_raw);
             free(ref); ref = malloc(n * es + 1);
             prng_seed(&r, o->a[3]);
             for (i = 0; i < n; i++) {
@@ -268,8 +278,8 @@ static void z_exec(const plan_t *p)
             size_t b;
             if (es < 2) { EVT("skip", 0, 0, 0); break; }
             n = ns[o->a[2] % 6];
-            if (arr) simheap_free(arr);
-            arr = simheap_alloc(n * es, TAG_EXT);
+            if (arr) simheap_free(arr_raw);
+            arr = alloc_at(n * es, moff_arr, &arr_raw);
             free(ref); ref = malloc(n * es + 1);
             for (i = 0; i < n; i++) {
                 unsigned char *e = arr + i * es;
@@ -396,7 +406,7 @@ static void z_gen(prng_t *r, int mode, plan_t *p)
     int rounds = huge ? 1 : 1 + (int)prng_below(r, 3), q, j;
     p->cfg[CF_ES] = (uint64_t)sizes[prng_below(r, sizeof sizes / sizeof sizes[0])];
     p->cfg[CF_JUNK] = 1 + prng_below(r, 254);
-    p->cfg[CF_RAND] = prng_below(r, 1000);
+    p->cfg[CF_RAND] = prng_below(r, 4096);
     p->cfg[CF_MAXN] = huge ? 70000 : large ? 4096 : small ? 8 : 64;
     for (q = 0; q < rounds; q++) {
         op_t *o = plan_add(p, Z_FILL);
